@@ -159,6 +159,8 @@ def terminate_matrix(chk, tier):
     scen_pers = ['p2', 'pfail'] if tier == 'thorough' else ['p2']
     cases, traces = lp.run_matrix(tier, lp.ALL, scen_one, scen_pers, 'c01t', extra_repeats=(0 if tier == 'thorough' else 3), per_class_cap=(None if tier == 'thorough' else 36))
     lp.require_classes(chk, cases, lp.ALL, 'terminate-matrix')
+    cases2, _ = lp.run_matrix(tier, ['ProcessWorker'], ['bigret'], [], 'c01big', extra_repeats=0, wide=True)
+    cases = list(cases) + list(cases2)
     for c in cases:
         dg = lp.digest(c)
         if dg['point'] is None:
